@@ -198,6 +198,12 @@ ReqSize(t) ==
   CASE op[t].k \in {"next", "nextid", "values", "idsvalues"} -> 1
     [] OTHER -> op[t].n   \* chunk, bnext, foreach/eforeach/fold (1 => single pulls, >1 => buffered pulls)
 
+\* what the counter is advanced by: single pulls add 1 (fetch_and_increment); chunk reservations are capped at the
+\* length of the source (fix 4404dbf of /repo), so that a huge request cannot wrap the counter
+AddSize(t) ==
+  IF op[t].k \in {"chunk", "bnext"} \/ (op[t].k \in {"foreach", "eforeach", "fold"} /\ op[t].n > 1)
+    THEN Min2(ReqSize(t), cf.len) ELSE ReqSize(t)
+
 \* visits of the positions b..b+a-1 by the closure of a composite op, in order
 RECURSIVE VisitAll(_, _, _, _, _)
 VisitAll(m, t, b, a, withIdx) ==
@@ -211,7 +217,7 @@ FetchAdd(t) ==
          b == counter[i]
          k == op[t].k
      IN
-     /\ counter' = [counter EXCEPT ![i] = Wrap(b + n)]
+     /\ counter' = [counter EXCEPT ![i] = Wrap(b + AddSize(t))]
      /\ tk' = [tk EXCEPT ![t] = b]
      /\ CASE k \in {"next", "nextid"} ->
                /\ res' = [res EXCEPT ![t] = ItemOf(b, k = "nextid")]
